@@ -24,7 +24,7 @@ inductive Resp where
   | state (raw : List Nat) (r : StateResp)
   | thermo (raw : List Nat) (r : ThermoResp)
   | shutter (raw : List Nat) (r : ShutterResp)
-  | schedules (raw : List Nat)
+  | schedules (raw : List Nat) (recs : List SchedRec)
 deriving Repr
 
 /-- an operation on an open connection: write a frame and read the reply, finitely often, then finish -/
@@ -153,58 +153,84 @@ inductive Req where
 def enumValue (table : List (String × String × String)) (member : String) : List Char :=
   (((table.find? (·.1 == member)).map (·.2.1)).getD "").toList
 
+/-- the tail of `control_breeze_device`: the separate swing command for remotes that have one, then the result -/
+def breezeSwingTail (cfg : Cfg) (ts : List Char) (raw : List Nat) (remote : Remote) (swing : Option String) (updateState : Bool)
+    (cmdResp : Option (List Nat)) : Prog :=
+  match swing with
+  | some sw =>
+    if remote.separatedSwing && !updateState then
+      match buildSwingCommand remote sw with
+      | .error e => .done (.error e)
+      | .ok c =>
+        match commandFrame "_control_breeze_swing_device" "BREEZE_COMMAND_PACKET"
+            (baseEnv cfg ts raw ++ [("command.length", .s c.length), ("command.command", .s c.command)]) with
+        | .error e => .done (.error e)
+        | .ok f => .send f (fun r => .done (.ok (.base r)))
+    else match cmdResp with
+      | some r => .done (.ok (.base r))
+      | none => .done (.error .runtimeError)
+  | none => match cmdResp with
+    | some r => .done (.ok (.base r))
+    | none => .done (.error .runtimeError)
+
+/-- the values `control_breeze_device` sends: requested if given, else what the device just reported;
+    swing forced OFF for remotes with a separate swing command -/
+structure BreezeSettings where
+  state : String
+  mode : String
+  temp : Int
+  fan : String
+  swing : String
+deriving Repr, DecidableEq
+
+def mergeSettings (remote : Remote) (cur : ThermoResp) (state mode : Option String) (targetTemp : Int)
+    (fan swing : Option String) : BreezeSettings :=
+  { state := state.getD cur.state, mode := mode.getD cur.mode,
+    temp := if targetTemp != 0 then targetTemp else cur.target,
+    fan := fan.getD cur.fan,
+    swing := if remote.separatedSwing then "OFF" else swing.getD cur.swing }
+
+/-- the main frame of `control_breeze_device`: the status-update frame or the IR command frame -/
+def breezeMainFrame (cfg : Cfg) (ts : List Char) (raw : List Nat) (remote : Remote) (cur : ThermoResp) (v : BreezeSettings)
+    (updateState : Bool) : Py (List Nat) :=
+  let method := "control_breeze_device"
+  if updateState then
+    commandFrame method "BREEZE_UPDATE_STATUS_PACKET" (baseEnv cfg ts raw ++
+      [("state.value", .s (enumValue Gen.deviceStates v.state)), ("mode.value", .s (enumValue Gen.thermostatModes v.mode)),
+       ("target_temp", .i v.temp), ("fan_level.value", .s (enumValue Gen.thermostatFanLevels v.fan)),
+       ("set_swing.value", .s (enumValue Gen.thermostatSwings v.swing))])
+  else do
+    let c ← buildCommand remote v.state v.mode v.temp v.fan v.swing (some cur.state)
+    commandFrame method "BREEZE_COMMAND_PACKET" (baseEnv cfg ts raw ++
+      [("command.length", .s c.length), ("command.command", .s c.command)])
+
+/-- `control_breeze_device` after a successful login, when something other than a separate swing was requested -/
+def breezeWithState (cfg : Cfg) (ts : List Char) (raw : List Nat) (remote : Remote) (state mode : Option String) (targetTemp : Int)
+    (fan swing : Option String) (updateState : Bool) : Prog :=
+  match commandFrame "_get_breeze_state" "GET_STATE_PACKET2_TYPE2" (baseEnv cfg ts raw) with
+  | .error e => .done (.error e)
+  | .ok qf => .send qf fun sraw =>
+    match catchKV (parseThermo sraw) with
+    | .error e => .done (.error e)
+    | .ok cur =>
+      if !successful sraw then .done (.error .runtimeError) else
+      match breezeMainFrame cfg ts raw remote cur (mergeSettings remote cur state mode targetTemp fan swing) updateState with
+      | .error e => .done (.error e)
+      | .ok f => .send f fun r =>
+        if !successful r then .done (.error .runtimeError) else breezeSwingTail cfg ts raw remote swing updateState (some r)
+
+/-- does the request ask for anything the main command carries? -/
+def wantsMain (remote : Remote) (state mode : Option String) (targetTemp : Int) (fan swing : Option String) : Bool :=
+  state.isSome || mode.isSome || targetTemp != 0 || fan.isSome || (swing.isSome && !remote.separatedSwing)
+
 /-- `control_breeze_device` -/
 def controlBreeze (cfg : Cfg) (now : Int) (remote : Remote) (state mode : Option String) (targetTemp : Int)
     (fan swing : Option String) (updateState : Bool) : Prog :=
-  let method := "control_breeze_device"
-  withLogin cfg now method fun ts raw =>
-    if guardStops method raw then .done (.error .runtimeError) else
-    let swingTail (cmdResp : Option (List Nat)) : Prog :=
-      match swing with
-      | some sw =>
-        if remote.separatedSwing && !updateState then
-          match buildSwingCommand remote sw with
-          | .error e => .done (.error e)
-          | .ok c =>
-            match commandFrame "_control_breeze_swing_device" "BREEZE_COMMAND_PACKET"
-                (baseEnv cfg ts raw ++ [("command.length", .s c.length), ("command.command", .s c.command)]) with
-            | .error e => .done (.error e)
-            | .ok f => .send f (fun r => .done (.ok (.base r)))
-        else match cmdResp with
-          | some r => .done (.ok (.base r))
-          | none => .done (.error .runtimeError)
-      | none => match cmdResp with
-        | some r => .done (.ok (.base r))
-        | none => .done (.error .runtimeError)
-    if state.isSome || mode.isSome || targetTemp != 0 || fan.isSome || (swing.isSome && !remote.separatedSwing) then
-      -- `_get_breeze_state`
-      match commandFrame "_get_breeze_state" "GET_STATE_PACKET2_TYPE2" (baseEnv cfg ts raw) with
-      | .error e => .done (.error e)
-      | .ok qf => .send qf fun sraw =>
-        match catchKV (parseThermo sraw) with
-        | .error e => .done (.error e)
-        | .ok cur =>
-          if !successful sraw then .done (.error .runtimeError) else
-          let st := state.getD cur.state
-          let md := mode.getD cur.mode
-          let tt : Int := if targetTemp != 0 then targetTemp else cur.target
-          let fl := fan.getD cur.fan
-          let sw := if remote.separatedSwing then "OFF" else swing.getD cur.swing
-          let frame : Py (List Nat) :=
-            if updateState then
-              commandFrame method "BREEZE_UPDATE_STATUS_PACKET" (baseEnv cfg ts raw ++
-                [("state.value", .s (enumValue Gen.deviceStates st)), ("mode.value", .s (enumValue Gen.thermostatModes md)),
-                 ("target_temp", .i tt), ("fan_level.value", .s (enumValue Gen.thermostatFanLevels fl)),
-                 ("set_swing.value", .s (enumValue Gen.thermostatSwings sw))])
-            else do
-              let c ← buildCommand remote st md tt fl sw (some cur.state)
-              commandFrame method "BREEZE_COMMAND_PACKET" (baseEnv cfg ts raw ++
-                [("command.length", .s c.length), ("command.command", .s c.command)])
-          match frame with
-          | .error e => .done (.error e)
-          | .ok f => .send f fun r =>
-            if !successful r then .done (.error .runtimeError) else swingTail (some r)
-    else swingTail none
+  withLogin cfg now "control_breeze_device" fun ts raw =>
+    if guardStops "control_breeze_device" raw then .done (.error .runtimeError)
+    else if wantsMain remote state mode targetTemp fan swing then
+      breezeWithState cfg ts raw remote state mode targetTemp fan swing updateState
+    else breezeSwingTail cfg ts raw remote swing updateState none
 
 /-- every public operation as a program; `zoneOff` is the host's (fixed) UTC offset used by `create_schedule` -/
 def prog (cfg : Cfg) (now : Int) (zoneOff : Int) : Req → Prog
@@ -220,7 +246,8 @@ def prog (cfg : Cfg) (now : Int) (zoneOff : Int) : Req → Prog
   | .setDeviceName name =>
     simpleOp cfg now "set_device_name" "UPDATE_DEVICE_NAME_PACKET"
       (do let n ← nameToHex name; pure [("device_name", .s n)]) (fun r => pure (.base r))
-  | .getSchedules => simpleOp cfg now "get_schedules" "GET_SCHEDULES_PACKET" (pure []) (fun r => pure (.schedules r))
+  | .getSchedules => simpleOp cfg now "get_schedules" "GET_SCHEDULES_PACKET" (pure [])
+      (fun r => (getSchedules zoneOff (now + zoneOff) r).map (.schedules r))
   | .deleteSchedule id =>
     simpleOp cfg now "delete_schedule" "DELETE_SCHEDULE_PACKET" (pure [("schedule_id", .s id)]) (fun r => pure (.base r))
   | .createSchedule start stop isSet days =>
